@@ -156,7 +156,12 @@ func mkOp(f *fx.Fixture, kind string, g, i int, seed int64) op {
 	gp.PLeaf, gp.PCont, gp.PList = 0.8, 0.8, 0.8
 	gg := &gen.G{DS: f.DS, R: r, P: gp}
 	t := gg.Subtree(abs.Path{})
-	src := gg.Subtree(abs.Path{})
+	// the document an upsert reads names every leaf (of the cases it picks): the typed conversion
+	// of each leaf type - unions and their lazily computed parts included - happens in every such
+	// operation, not only when a random document happens to hold the leaf
+	full := gp
+	full.PLeaf, full.PCont = 1, 1
+	src := (&gen.G{DS: f.DS, R: r, P: full}).Subtree(abs.Path{})
 	stores := []string{"rmap", "nmap", "rslice", "nslice"}
 	store := fx.Stores[stores[r.Intn(len(stores))]]
 	doc := fx.JSONDoc(f, src, abs.Path{})
